@@ -37,7 +37,7 @@ CLAIMS = {
             "model's reader as exactly the members written (count, order, names, methods, times, CRCs, sizes, data; attributes as raw_copy_file re-derives them), for all member lists whose fields fit their "
             "widths; end to end: for every input of bytes the handler rewrites, the clamped members copied out of the input are what the reader finds in the output (field widths derived from the "
             "input being bytes). Partial because the length of CP437-transcoded names, the 4 GiB / 65535-member bounds and the absence of an accidental zip64-locator signature "
-            "remain hypotheses, and the input-side reader is the model's own; both are decided by the byte-exact differential run (extracted model vs. the real handler) and by an independent "
+            "remain hypotheses - they are an executable predicate (zip_domain, extracted, with a soundness theorem), which the check runs on every sampled archive, requiring the rewritten inputs to lie inside - and the input-side reader is the model's own; both are decided by the byte-exact differential run (extracted model vs. the real handler) and by an independent "
             "reader (python zipfile + own central/local header parser, unzip -t) comparing members before/after.",
             "Modelled, not verified: the zip crate (0.6.6) reader/writer as modelled in Zip.v (single disk, no zip64/AES records: such archives are outside the modelled class and only judged by the "
             "independent-reader oracle), CP437 table, DEFLATE data opaque.", "DESIGN.md section 5-C03"),
